@@ -61,14 +61,13 @@ Theorem create_solid_output_wf_writer : forall c order t pw jobs cfg ctx,
   wf_tree t -> tree_ok t ->
   Forall2 carries jobs (create_from_tree c order t) -> Forall (wf_job E compress verify pw) jobs -> Forall writer_job jobs ->
   key_iv_ok (c_key ctx) (c_iv ctx) = true -> writer_ctx cfg ctx ->
-  small_pieces E compress cfg ctx (solid_writes (map (build_job E compress) jobs)) ->
   let a := write_raw_archive 0 [solid_archive_chunks E compress cfg ctx (solid_writes (map (build_job E compress) jobs))] in
   let es := [RSolid (streamed_solid E compress cfg ctx (solid_writes (map (build_job E compress) jobs)))] in
   wf_archive a = true /\ strict_decode a = Ok es /\
   entries read_chunk_stream a = Ok (es, FinOk) /\ entries read_chunk_slice a = Ok (es, FinOk) /\
   inner_entries (solid_plain_stream (map (build_job E compress) jobs)) = SOk (map (fun j => RNormal (build_job E compress j)) jobs).
 Proof.
-  intros c order t pw jobs cfg ctx WF TOK Hc Hw Hp K PH SM.
+  intros c order t pw jobs cfg ctx WF TOK Hc Hw Hp K PH.
   apply (create_solid_output_wf E compress verify E_len c order t pw jobs cfg ctx); try assumption.
   - eapply Forall_impl; [exact writer_job_phc | exact Hp].
   - exact (writer_ctx_phc _ _ PH).
